@@ -358,18 +358,19 @@ pub fn run(tier: &str) -> i32 {
     }
     // (9) the monitor over operation sequences, reopen and compaction (a small slice of C06's space)
     let prof = crate::profiles::c06_profiles(true);
+    let seq_depth = if quick { 2 } else { 4 };
     let mut seq_execs = 0u64;
     for (mut p, cap) in prof {
-        p.depth = 2;
+        p.depth = seq_depth;
         match crate::seqx::run_profile(p, cap) {
             Ok(st) => {
                 seq_execs += st.executions;
-                crate::seqx::report_stats(&mut rep, "contract-monitor-over-sequences", &st, 2);
+                crate::seqx::report_stats(&mut rep, "contract-monitor-over-sequences", &st, seq_depth);
             }
             Err(e) => rep.machinery_errors.push(e),
         }
     }
-    rep.cov("rule", json!("the monitor (bounds of every read/write against the current length, no call after close, close exactly once per backend, read-only means len/read/close only) is evaluated on every dedicated case: every bit of the magic number flipped, wrong page size, every byte of the geometry/layout fields altered three ways, files truncated to every listed length, repair aborted at each callback invocation, an I/O error at EVERY call index of open on a clean and on a crash image in both failure modes, read-only opens of a clean and a dirty image through the real ReadOnlyDatabase path, a Database dropped while a write transaction and a reader are alive (6 endings), plus every operation sequence of depth 2 of the ownership profile; distinct = distinct (family, outcome) classes"));
+    rep.cov("rule", json!("the monitor (bounds of every read/write against the current length, no call after close, close exactly once per backend, read-only means len/read/close only) is evaluated on every dedicated case: every bit of the magic number flipped, wrong page size, every byte of the geometry/layout fields altered three ways, files truncated to every listed length, repair aborted at each callback invocation, an I/O error at EVERY call index of open on a clean and on a crash image in both failure modes, read-only opens of a clean and a dirty image through the real ReadOnlyDatabase path, a Database dropped while a write transaction and a reader are alive (6 endings), plus every operation sequence of depth 2 (thorough: 4) of the ownership profile; distinct = distinct (family, outcome) classes"));
     rep.cov("dedicated_cases", json!(acc.cases));
     rep.add_count("evaluations", acc.cases);
     rep.add_count("states", acc.cases);
